@@ -79,6 +79,8 @@ def run(ctx):
                 # velocities such that v*bz*dt is (nearly) a multiple of 1/8 for the first radius, generic for the others
                 ks = rng.sample(range(-44, 45), 5) + [0, 8, -16, 24]
                 dt = rng.choice([1.0, -1.0, 0.5, 2.0])
+                # ... and feet a few 1e-6 of a cell away from a grid line (not on it: all six weights are non-zero, one is nearly 1)
+                ks = ks + [8 + 2.5e-5, -16 - 4e-5, 3e-5]
                 vs = np.array(sorted(set(k / 8.0 / bz[0] / dt for k in ks)))
                 eta = [rs, L.theta, np.arange(nz, dtype=float) * 1.0, vs]
                 c = fa.consts(0.0 if rdep else iota, R0)
